@@ -20,7 +20,7 @@ are parameters (`User`): they receive the *effective lookup* of the attributes (
 behaviour depends on a dict only through its key→value content (dict order is not observable).
 
 The wrapped flavour follows the code **with the repairs applied**: fixes/C13-type-empty-mapping.diff
-(c5871cf), fixes/C13-stateful-noncallable.diff (146ab51), fixes/C13-wrapped-pickle-ctor-args.diff.
+(c5871cf), fixes/C13-stateful-noncallable.diff (146ab51), fixes/C13-wrapped-pickle-ctor-args.diff (e52a412).
 The unrepaired variants are kept as `TrainMap.statefulLegacy` / `wrappedRepickleLegacy` for the
 refutation theorems.
 Core Lean only.
